@@ -10,12 +10,12 @@ git -C /repo worktree add -q --detach $wt HEAD || { echo "worktree failed" > $lo
 echo "repo HEAD $(git -C /repo rev-parse --short HEAD)"
 cd $wt
 if ! git apply $src/patch.diff; then echo "RESULT patch_does_not_apply"; cd /; git -C /repo worktree remove --force $wt; exit 1; fi
-PYTHONPATH=$wt /venv/bin/python -m pytest -q -p no:cacheprovider --timeout=900 tests 2>&1 | tail -2
+XO_REPO=$wt PYTHONPATH=$wt /venv/bin/python -m pytest -q -p no:cacheprovider --timeout=900 tests 2>&1 | tail -2
 suite=${PIPESTATUS[0]}
-PYTHONPATH=$wt timeout 300 /venv/bin/python $src/demo.py > /tmp/demo_out_$$ 2>&1; with=$?
+XO_REPO=$wt PYTHONPATH=$wt timeout 300 /venv/bin/python $src/demo.py > /tmp/demo_out_$$ 2>&1; with=$?
 tail -3 /tmp/demo_out_$$
 git checkout -q -- .
-PYTHONPATH=$wt timeout 300 /venv/bin/python $src/demo.py > /tmp/demo_out_$$ 2>&1; without=$?
+XO_REPO=$wt PYTHONPATH=$wt timeout 300 /venv/bin/python $src/demo.py > /tmp/demo_out_$$ 2>&1; without=$?
 rm -f /tmp/demo_out_$$
 echo "RESULT suite_exit=$suite demo_with_patch_exit=$with demo_without_patch_exit=$without"
 cd /
